@@ -398,7 +398,7 @@ class stDiGraph(AbstractSourceSinkGraph):
 
         return incompatible_sequences
 
-    def compute_edge_max_reachable_value(self, flow_attr: str) -> Dict[Tuple[str, str], float]:
+    def compute_edge_max_reachable_value(self, flow_attr: str, edges_to_ignore=None) -> Dict[Tuple[str, str], float]:
         """For each base edge (u,v), compute the maximum ``flow_attr`` over:
         - the edge (u,v) itself,
         - any edge reachable forward from v,
@@ -410,6 +410,7 @@ class stDiGraph(AbstractSourceSinkGraph):
         Returns a dict mapping each original edge (u,v) to the computed float. 
 
         If an edge has a missing ``flow_attr'' (the source and sink edges) we treat its flow value as 0.
+        The same holds for the edges in ``edges_to_ignore``: the value of an ignored edge says nothing about the graph.
 
         Examples
         --------
@@ -443,8 +444,9 @@ class stDiGraph(AbstractSourceSinkGraph):
         local_in = {c: 0.0 for c in C.nodes()}
 
         edge_weight: Dict[Tuple[str, str], float] = {}
+        ignored = set(edges_to_ignore or [])
         for u, v, data in self.edges(data=True):
-            w = float(data.get(flow_attr, 0.0))
+            w = 0.0 if (u, v) in ignored else float(data.get(flow_attr, 0.0))
             edge_weight[(u, v)] = w
             cu = mapping[u]
             cv = mapping[v]
